@@ -27,10 +27,11 @@ try:
                         "--continue-on-collection-errors", "--junitxml=" + xml, "tests"], cwd=wt, env=env,
                        stdout=subprocess.DEVNULL, stderr=subprocess.DEVNULL)
         passed = set()
-        for tc in ET.parse(xml).getroot().iter("testcase"):
+        for tc in (ET.parse(xml).getroot().iter("testcase") if os.path.exists(xml) else []):
             if not any(c.tag in ("failure", "error", "skipped") for c in tc):
                 passed.add(tc.get("classname") + "::" + tc.get("name"))
-        os.unlink(xml)
+        if os.path.exists(xml):
+            os.unlink(xml)
         subprocess.run(["git", "-C", wt, "checkout", "--", "."])
         missing = sorted(base - passed)
         meta["confirmed"] = {"patch_applies": ap == 0, "demo_rc_without_patch": r0, "demo_rc_with_patch": r1,
